@@ -463,3 +463,174 @@ func BlockRow(h Header, status byte) []byte { return append(h.Bytes(), status) }
 func BlockIndexKey(hash [32]byte, height uint32) []byte {
 	return append([]byte{byte(height >> 24), byte(height >> 16), byte(height >> 8), byte(height)}, hash[:]...)
 }
+
+// ---------------------------------------------------------------------------------------------
+// legacy per-transaction utxo entry (utxo set bucket version 1, read by the upgrade path)
+//
+//	<VLQ tx version><VLQ block height><VLQ header code><unspentness bitmap><compressed txout>...
+//
+// header code: bit 0 coinbase, bit 1 output 0 unspent, bit 2 output 1 unspent, bits 3.. = number N
+// of bitmap bytes, or N-1 when neither bit 1 nor bit 2 is set (such an entry always has a bitmap).
+// Bit j of bitmap byte i stands for output 2+8i+j. One compressed txout follows for every unspent
+// output, in ascending output order.
+
+// LegacyOut is one unspent output of a legacy entry.
+type LegacyOut struct {
+	Amount uint64
+	Script []byte
+}
+
+// LegacyEntry is a legacy utxo entry. BitmapBytes is the number of bitmap bytes to write; 0 means
+// the minimal number (the historical writer dropped trailing zero bytes).
+type LegacyEntry struct {
+	Version     uint64
+	Height      int32
+	CoinBase    bool
+	Outs        map[uint32]LegacyOut
+	BitmapBytes int
+}
+
+// MinBitmapBytes is the number of bitmap bytes needed for the highest unspent output.
+func (e *LegacyEntry) MinBitmapBytes() int {
+	n := 0
+	for idx := range e.Outs {
+		if idx >= 2 {
+			if b := int(idx-2)/8 + 1; b > n {
+				n = b
+			}
+		}
+	}
+	return n
+}
+
+// Bytes encodes the entry; ok=false when it cannot be expressed (no bitmap although neither of
+// the first two outputs is unspent, or an amount without a code).
+func (e *LegacyEntry) Bytes() ([]byte, bool) {
+	n := e.BitmapBytes
+	if m := e.MinBitmapBytes(); n < m {
+		n = m
+	}
+	_, o0 := e.Outs[0]
+	_, o1 := e.Outs[1]
+	code := uint64(0)
+	if e.CoinBase {
+		code |= 1
+	}
+	if o0 {
+		code |= 2
+	}
+	if o1 {
+		code |= 4
+	}
+	if !o0 && !o1 {
+		if n == 0 {
+			return nil, false
+		}
+		code |= uint64(n-1) << 3
+	} else {
+		code |= uint64(n) << 3
+	}
+	out := PutVLQ(e.Version)
+	out = append(out, PutVLQ(uint64(uint32(e.Height)))...)
+	out = append(out, PutVLQ(code)...)
+	bitmap := make([]byte, n)
+	var order []uint32
+	for idx := range e.Outs {
+		order = append(order, idx)
+		if idx >= 2 {
+			bitmap[(idx-2)/8] |= 1 << ((idx - 2) % 8)
+		}
+	}
+	for i := range order { // ascending, naive
+		for j := i + 1; j < len(order); j++ {
+			if order[j] < order[i] {
+				order[i], order[j] = order[j], order[i]
+			}
+		}
+	}
+	out = append(out, bitmap...)
+	for _, idx := range order {
+		t, ok := TxOut(e.Outs[idx].Amount, e.Outs[idx].Script)
+		if !ok {
+			return nil, false
+		}
+		out = append(out, t...)
+	}
+	return out, true
+}
+
+// ParseLegacyEntry parses a legacy entry. ok=false: malformed (ends early). clean=false: some
+// quantity does not fit its field, the decoded value is unspecified.
+func ParseLegacyEntry(b []byte) (e LegacyEntry, clean, ok bool) {
+	clean = true
+	ver, n, ok := ReadVLQ(b)
+	if !ok {
+		return e, clean, false
+	}
+	if ver.IsUint64() {
+		e.Version = ver.Uint64()
+	} else {
+		clean = false
+	}
+	off := n
+	h, n, ok := ReadVLQ(b[off:])
+	if !ok {
+		return e, clean, false
+	}
+	if h.IsUint64() && h.Uint64() <= 0x7fffffff {
+		e.Height = int32(h.Uint64())
+	} else {
+		clean = false
+	}
+	off += n
+	code, n, ok := ReadVLQ(b[off:])
+	if !ok {
+		return e, clean, false
+	}
+	off += n
+	if !code.IsUint64() {
+		return e, false, false
+	}
+	c := code.Uint64()
+	e.CoinBase = c&1 != 0
+	o0, o1 := c&2 != 0, c&4 != 0
+	nb := new(big.Int).SetUint64(c >> 3)
+	if !o0 && !o1 {
+		nb.Add(nb, big.NewInt(1))
+	}
+	if nb.Cmp(big.NewInt(int64(len(b)-off))) > 0 {
+		return e, clean, false
+	}
+	e.BitmapBytes = int(nb.Int64())
+	var order []uint32
+	if o0 {
+		order = append(order, 0)
+	}
+	if o1 {
+		order = append(order, 1)
+	}
+	for i := 0; i < e.BitmapBytes; i++ {
+		for j := 0; j < 8; j++ {
+			if b[off+i]>>uint(j)&1 == 1 {
+				if 2+8*i+j > 0xffffffff {
+					clean = false
+				}
+				order = append(order, uint32(2+8*i+j))
+			}
+		}
+	}
+	off += e.BitmapBytes
+	e.Outs = map[uint32]LegacyOut{}
+	for _, idx := range order {
+		p := Parsed{Clean: true}
+		if !parseTxOut(b[off:], &p) {
+			return e, clean, false
+		}
+		if !p.Clean {
+			clean = false
+		}
+		e.Outs[idx] = LegacyOut{p.Amount, p.Script}
+		off += p.Size
+	}
+	return e, clean, true
+}
